@@ -548,7 +548,9 @@ def read_configparser(path):
         elif action == "append":
             value_parts = config.get("behave", dest).splitlines()
             value_type = value_type or six.text_type
-            this_config[param_name] = [value_type(part.strip()) for part in value_parts]
+            # -- NOTE: All values may be on new lines (first line is empty).
+            this_config[param_name] = [value_type(part.strip())
+                                       for part in value_parts if part.strip()]
         elif action not in CONFIGFILE_EXCLUDED_ACTIONS:  # pragma: no cover
             raise ValueError('action "%s" not implemented' % action)
 
